@@ -729,6 +729,19 @@ fn read_footer(f: Arc<dyn File>, file_size: usize) -> Result<Footer> {
 
 /// Reads raw bytes at a block handle's location.
 fn read_bytes(f: Arc<dyn File>, location: &BlockHandle) -> Result<Vec<u8>> {
+	// A handle comes from the footer or an index block. The footer carries no
+	// checksum, so a damaged handle can claim any size: check it against the file
+	// before allocating that much (a size of 2^63 panicked, 2^40 aborts the process).
+	let file_size = f.size()?;
+	let end = (location.offset() as u64).checked_add(location.size() as u64);
+	if end.is_none_or(|end| end > file_size) {
+		return Err(Error::Corruption(format!(
+			"block handle (offset {}, size {}) reaches beyond the end of the table file ({} bytes)",
+			location.offset(),
+			location.size(),
+			file_size
+		)));
+	}
 	let mut buf = vec![0; location.size()];
 	f.read_at(location.offset() as u64, &mut buf).map(|_| buf)
 }
